@@ -1,5 +1,6 @@
 import GqlProofs.Parser.Measure
 import GqlProofs.Parser.Pulls
+import GqlProofs.Lexer.TokFacts
 /-
   The token stream ahead of a parser state.
 
@@ -15,6 +16,9 @@ import GqlProofs.Parser.Pulls
 -/
 namespace Gql.Parser
 open Gql Gql.Lexer
+
+/-- what every lexer token satisfies: it is not `Invalid`, and a kind without text has no value -/
+def TokOK (t : Token) : Prop := t.kind ≠ .invalid ∧ (t.kind.valued = false → t.value = [])
 
 inductive Stream
   | eof (t : Token)
@@ -58,9 +62,9 @@ def term : Stream → Stream
   | .cons _ σ => σ.term
   | x => x
 
-/-- no token before the terminator is an EOF token -/
+/-- the tokens are lexer tokens (`TokOK`), and none before the terminator is an EOF token -/
 def NoEof : Stream → Prop
-  | .cons t σ => t.kind ≠ .eof ∧ NoEof σ
+  | .cons t σ => (t.kind ≠ .eof ∧ TokOK t) ∧ NoEof σ
   | .eof t => t.kind = .eof
   | .err _ => True
 
@@ -130,7 +134,7 @@ theorem NoEof.eof_of_head {σ : Stream} (h : NoEof σ) (hk : σ.head.kind = .eof
   cases σ with
   | eof t => exact ⟨t, rfl⟩
   | err e => simp [head, invalidTok] at hk
-  | cons t σ => exact absurd hk h.1
+  | cons t σ => exact absurd hk h.1.1
 
 end Stream
 
@@ -169,8 +173,35 @@ theorem rawS_noEof (rest : Bytes) (c : Cur) : (rawS rest c).NoEof := by
       · rw [if_pos hk]; exact hk
       · rw [if_neg hk]
         have hp := readToken_progress rest c
-        rw [h] at hp
-        exact ⟨hk, ih _ (by have := hp.2 hk; omega) _ _ rfl⟩
+        have ho := readToken_okAt rest c
+        rw [h] at hp ho
+        exact ⟨⟨hk, ho.2.2.2, ho.2.2.1⟩, ih _ (by have := hp.2 hk; omega) _ _ rfl⟩
+
+/-- rune offsets move forward: every token ahead starts at or after the cursor, and the starts
+    are strictly increasing -/
+theorem rawS_sorted (rest : Bytes) (c : Cur) :
+    (∀ t ∈ (rawS rest c).toks, c.endR ≤ t.start) ∧ (rawS rest c).toks.Pairwise (fun a b => a.start < b.start) := by
+  induction hn : rest.length using Nat.strongRecOn generalizing rest c with
+  | _ n ih =>
+    cases h : readToken rest c with
+    | err e => rw [rawS_err h]; simp [Stream.toks]
+    | tok t rest' c' =>
+      rw [rawS_tok h]
+      by_cases hk : t.kind = .eof
+      · rw [if_pos hk]; simp [Stream.toks]
+      · rw [if_neg hk]
+        have hp := readToken_progress rest c
+        have ho := readToken_okAt rest c
+        rw [h] at hp ho
+        obtain ⟨i1, i2⟩ := ih _ (by have := hp.2 hk; omega) rest' c' rfl
+        have hlt : t.start < c'.endR := by
+          rcases ho.2.1 with h' | h'
+          · exact absurd h' hk
+          · exact h'
+        simp only [Stream.toks, List.mem_cons, forall_eq_or_imp, List.pairwise_cons]
+        refine ⟨⟨ho.1, fun u hu => ?_⟩, fun u hu => ?_, i2⟩
+        · have := i1 u hu; omega
+        · have := i1 u hu; omega
 
 /-! ### `rawS` and `lexAll` -/
 
@@ -228,25 +259,29 @@ structure AS where
 
 def abs (s : PState) : AS := { pk := s.peeked, σ := s.raw.sig, cnt := s.tokenCount + s.raw.len }
 
-theorem raw_noEof (s : PState) : s.raw.NoEof := by
-  unfold PState.raw
-  split
-  · split
-    · trivial
-    · split
-      · assumption
-      · exact ⟨‹_›, rawS_noEof _ _⟩
-  · exact rawS_noEof _ _
-
-theorem abs_noEof (s : PState) : (abs s).σ.NoEof := (raw_noEof s).sig
-
 /-- the look-ahead slot is consistent: an error comes with the `Invalid` token; a filled
     look-ahead (outside `consumeCommentGroup`) never holds a comment -/
-def WF' (s : PState) : Prop := s.peeked = true → ∀ e, s.peekErr = some e → s.peekTok = invalidTok e
+def WF' (s : PState) : Prop :=
+  s.peeked = true → (∀ e, s.peekErr = some e → s.peekTok = invalidTok e) ∧ (s.peekErr = none → TokOK s.peekTok)
 def WF (s : PState) : Prop :=
-  s.peeked = true → (∀ e, s.peekErr = some e → s.peekTok = invalidTok e) ∧ (s.peekErr = none → s.peekTok.kind ≠ .comment)
+  s.peeked = true → (∀ e, s.peekErr = some e → s.peekTok = invalidTok e) ∧
+    (s.peekErr = none → s.peekTok.kind ≠ .comment ∧ TokOK s.peekTok)
 
-theorem WF.wf' {s : PState} (h : WF s) : WF' s := fun hp => (h hp).1
+theorem WF.wf' {s : PState} (h : WF s) : WF' s := fun hp => ⟨(h hp).1, fun he => ((h hp).2 he).2⟩
+
+theorem raw_noEof {s : PState} (hw : WF' s) : s.raw.NoEof := by
+  unfold PState.raw
+  split
+  · rename_i hp
+    split
+    · trivial
+    · rename_i he
+      split
+      · assumption
+      · exact ⟨⟨‹_›, (hw hp).2 he⟩, rawS_noEof _ _⟩
+  · exact rawS_noEof _ _
+
+theorem abs_noEof {s : PState} (hw : WF s) : (abs s).σ.NoEof := (raw_noEof hw.wf').sig
 
 theorem WF.init (src : Nat) (inp : Bytes) : WF (PState.init src inp) := by
   intro h; simp [PState.init] at h
@@ -291,10 +326,18 @@ theorem raw_readPeek {s : PState} (hp : s.peeked = false) : s.readPeek.raw = s.r
   · rw [h2]; simp [PState.raw, hp, rawS_tok h1]
 
 theorem WF'_readPeek (s : PState) : WF' s.readPeek := by
-  intro _ e he
+  intro _
   rcases readPeek_cases s with ⟨e', h1, h2⟩ | ⟨t, r, c, h1, h2⟩
-  · rw [h2] at he ⊢; simp at he ⊢; rw [he]
-  · rw [h2] at he; simp at he
+  · rw [h2]
+    refine ⟨fun e he => ?_, fun he => ?_⟩
+    · simp at he ⊢; rw [he]
+    · simp at he
+  · rw [h2]
+    refine ⟨fun e he => ?_, fun _ => ?_⟩
+    · simp at he
+    · have ho := readToken_okAt s.rest s.cur
+      rw [h1] at ho
+      exact ⟨ho.2.2.2, ho.2.2.1⟩
 
 /-- one iteration of the comment loop in a filled look-ahead state holding a comment -/
 theorem takePeeked_comment {s : PState} (hp : s.peeked = true) (hw : WF' s) (hc : s.peekTok.kind = .comment) :
@@ -303,7 +346,7 @@ theorem takePeeked_comment {s : PState} (hp : s.peeked = true) (hw : WF' s) (hc 
   have hne : s.peekErr = none := by
     cases he : s.peekErr with
     | none => rfl
-    | some e => have := hw hp e he; rw [this] at hc; simp [invalidTok] at hc
+    | some e => have := (hw hp).1 e he; rw [this] at hc; simp [invalidTok] at hc
   refine ⟨by simp [PState.takePeeked, hne], rfl, ?_, rfl, rfl⟩
   simp [PState.raw, hp, hne, hc, PState.takePeeked]
 
@@ -339,7 +382,7 @@ theorem commentLoop_abs (n : Nat) (s : PState) (hl : dead s = false) (hw : WF' s
     · rw [if_pos hc] at hlive ⊢
       refine ⟨k1, ?_, ?_, by rw [k3, k4]⟩
       · intro _
-        exact ⟨fun e he' => k5 k1 e he', fun _ => by rw [← k2]; exact hc⟩
+        exact ⟨fun e he' => (k5 k1).1 e he', fun he' => ⟨by rw [← k2]; exact hc, (k5 k1).2 he'⟩⟩
       · rw [k3]
         symm; apply Stream.skipC_of_head
         rw [← k3]
@@ -380,7 +423,7 @@ theorem groupIf_abs (s : PState) (hl : dead s = false) (hw : WF' s) (hp : s.peek
     exact commentLoop_abs _ s hl hw hlive
   · rw [if_neg hc]
     refine ⟨hp, ?_, ?_, rfl⟩
-    · intro _; exact ⟨fun e he => hw hp e he, fun _ => hc⟩
+    · intro _; exact ⟨fun e he => (hw hp).1 e he, fun he => ⟨hc, (hw hp).2 he⟩⟩
     · symm; apply Stream.skipC_of_head
       unfold PState.raw
       rw [hp]; simp only [↓reduceIte]
@@ -399,7 +442,7 @@ theorem head_sig_raw {s : PState} (hw : WF s) (hp : s.peeked = true) : s.raw.sig
     simp only
     split
     · simp [Stream.sig, Stream.head]
-    · simp [Stream.sig, w2 hpe, Stream.head]
+    · simp [Stream.sig, (w2 hpe).1, Stream.head]
 
 /-- **`peek`**: returns the first significant token ahead, fills the look-ahead, changes nothing else. -/
 theorem peek_abs (s : PState) (hw : WF s) (hlive : dead (s.peek 0).2 = false) :
@@ -442,7 +485,7 @@ theorem next_abs (s : PState) (hw : WF s) (hl : dead s = false) (hp : s.peeked =
       by_cases hk : s.peekTok.kind = .eof
       · rw [if_pos hk] at hσ; simp [Stream.sig] at hσ
       · rw [if_neg hk] at hσ
-        simp only [Stream.sig, w2 hpe, ↓reduceIte, Stream.cons.injEq] at hσ
+        simp only [Stream.sig, (w2 hpe).1, ↓reduceIte, Stream.cons.injEq] at hσ
         exact ⟨rfl, hk, hσ.1, hσ.2⟩
   obtain ⟨r1, r2, r3, r4⟩ := hraw
   have hnx : s.next 0 = (s.peekTok, s.takePeeked) := by
